@@ -9,7 +9,7 @@ from ..cxx_ir import CALL_KINDS, CTOR_KINDS
 from ..cfg import cfg_of, const_eval
 from ..cxx_ir import LOOP_KINDS
 from .common import (short, inst, live_funcs, calls_in, callee_func, member_path, local_inits, strip_casts,
-                     enclosing_map, ancestors, assignments_to)
+                     enclosing_map, ancestors, assignments_to, unnegate)
 from .equality import NODE_REC, SPEC_REC, node_fields, tokens, fields_read, _base_is
 
 
@@ -833,8 +833,20 @@ def s2(ctx):
                 nulltests.append(cn)
     ok = False
     for nt in nulltests:
-        # the "is null" edge must lead to a throw only
+        # the "is null" edge - and no other - must lead to a throw only
+        base_, pos_ = unnegate(nt.ast)
+        op_ = None
+        if base_ is not None and base_.kind == 'BinaryOperator' and base_.op in ('==', '!='):
+            op_ = base_.op
+        elif base_ is not None and base_.kind == 'CXXOperatorCallExpr' and \
+                base_.callee_name() in ('operator==', 'operator!='):
+            op_ = base_.callee_name()[-2:]
+        if op_ is None:
+            continue
+        null_edge = ((op_ == '==') == pos_)
         for (w, lab) in cfg.succ[nt.idx]:
+            if lab is not null_edge:
+                continue
             reach = cfg.forward_reachable([w])
             throws = [x for x in reach if cfg.nodes[x].kind == 'throw']
             normal = cfg.exit.idx in reach or any((x, y) in cfg.back_edges for x in reach
